@@ -68,7 +68,7 @@ theorem Once.counts {a : Addr} {l : List Ev} (h : Once a l) :
   have c1 := count_eq_zero_of_clean h1
   have c2 := count_eq_zero_of_clean h2
   have c3 := count_eq_zero_of_clean h3
-  simp [List.count_append, List.count_cons, c1.1, c1.2, c2.1, c2.2, c3.1, c3.2]
+  simp [List.count_append, c1.1, c1.2, c2.1, c2.2, c3.1, c3.2]
 
 theorem Once.not_nil {a : Addr} : ¬ Once a [] := by
   rintro ⟨pre, mid, post, h, _⟩
@@ -211,7 +211,7 @@ theorem length_regWithout_lt {x : Addr} {r : List Entry} (h : x ∈ r.map (·.ad
   | cons e r ih =>
     have hle := length_regWithout_le [x] r
     by_cases he : e.addr = x
-    · have : regWithout [x] (e :: r) = regWithout [x] r := by simp [regWithout, List.filter_cons, he]
+    · have : regWithout [x] (e :: r) = regWithout [x] r := by simp [regWithout, he]
       rw [this]; simp only [List.length_cons]; omega
     · have h' : x ∈ r.map (·.addr) := by
         simp only [List.map_cons, List.mem_cons] at h
@@ -219,7 +219,7 @@ theorem length_regWithout_lt {x : Addr} {r : List Entry} (h : x ∈ r.map (·.ad
         · exact absurd h.symm he
         · exact h
       have := ih h'
-      have e' : regWithout [x] (e :: r) = e :: regWithout [x] r := by simp [regWithout, List.filter_cons, he]
+      have e' : regWithout [x] (e :: r) = e :: regWithout [x] r := by simp [regWithout, he]
       rw [e']; simp only [List.length_cons]; omega
 
 /-! ### the effect of a piece of collector work -/
